@@ -10,7 +10,7 @@ from qvm.using import PrintUsingFormatter
 
 LEAN_MODULE = 'QbeeModel.Props.C19'
 REQUIRED = ['num_width', 'num_width_uses_sign_position', 'overflow_mark', 'amp_bang', 'literal_copied',
-            'escape_copied', 'consume_in_order']
+            'escape_copied', 'consume_in_order', 'num_width_trailing_sign', 'edge_points']
 ALPHA = '#.,+-&!_a '
 VALUES = [0, 1, -1, 7, 12, -12, 999, 1000, 1234567, -1234567, 0.5, 1.5, 2.5, -2.5, 9.995, -9.995, 0.045, 99.99, 99.995,
           0.001, -0.001, 1234.5678, 1e10, 123456789.125, 0.999, 9.5, 10.0, -0.5, 5e-7]
@@ -31,9 +31,10 @@ def real_scan(fmt):
         else:
             o = p[2]
             sign = o.get('sign')
-            out.append('num:%d:%s:%s:%d:%s:%d' % (
+            out.append('num:%d:%s:%s:%d:%s:%d:%d' % (
                 len(p[1]), 'e' if sign and sign[0] == 'end' else 'b', str(ord(sign[1])) if sign else '-',
-                1 if o.get('comma') else 0, str(o['decimal_point']) if 'decimal_point' in o else '-', o['real_sharps']))
+                1 if o.get('comma') else 0, str(o['decimal_point']) if 'decimal_point' in o else '-', o['real_sharps'],
+                o.get('decimals', 0)))
     return ('ok ' + ' '.join(out)).strip(), f
 
 
@@ -44,15 +45,15 @@ def fields_of(scan_answer):
         if tok.startswith('str:'):
             fs.append(('str', chr(int(tok[4:]))))
         elif tok.startswith('num:'):
-            _, w, pos, ch, comma, dp, real_ = tok.split(':')
-            fs.append(('num', int(w), pos, ch, comma == '1', None if dp == '-' else int(dp)))
+            _, w, pos, ch, comma, dp, real_, dec = tok.split(':')
+            fs.append(('num', int(w), pos, ch, comma == '1', None if dp == '-' else int(dp), int(dec)))
     return fs
 
 
 def body_for(field, v):
-    _, w, pos, ch, comma, dp = field
-    # (as repaired: a field without a decimal point asks for no decimals; it used the bare '{}' form)
-    spec = '{:' + (',' if comma else '') + (('.%df' % (w - dp)) if dp is not None else '.0f') + '}'
+    _, w, pos, ch, comma, dp, dec = field
+    # (as repaired: a field without a decimal point asks for no decimals; the decimals are the '#' after the point)
+    spec = '{:' + (',' if comma else '') + (('.%df' % dec) if dp is not None else '.0f') + '}'
     return spec.format(abs(v))
 
 
@@ -63,7 +64,7 @@ def val_tokens(fields, vals):
         if isinstance(v, str):
             toks += ['S', core.enc_str(v)]
         else:
-            f = fields[i] if i < len(fields) and fields[i][0] == 'num' else ('num', 1, 'b', '-', False, None)
+            f = fields[i] if i < len(fields) and fields[i][0] == 'num' else ('num', 1, 'b', '-', False, None, 0)
             toks += ['N', '1' if v < 0 else '0', core.enc_str(body_for(f, v))]
     return toks
 
@@ -75,7 +76,7 @@ def real_format(formatter, vals):
         return 'host ' + type(e).__name__
 
 
-PLAIN = re.compile(r'^([+-]?)(#[#,]*)(?:\.(#*))?$')
+PLAIN = re.compile(r'^([+-]?)(#[#,]*|(?=\.#))(?:\.(#*))?([+-]?)$')
 
 
 def spec_field(fmt, v):
@@ -84,9 +85,9 @@ def spec_field(fmt, v):
     m = PLAIN.match(fmt)
     if not m:
         return None
-    sign, ip, fp = m.group(1), m.group(2), m.group(3)
-    if fp == '':
-        return None     # "##." : whether the bare point is shown is not stated by the property
+    sign, ip, fp, tsign = m.group(1), m.group(2), m.group(3), m.group(4)
+    if sign and tsign:
+        return None     # two signs: the second one is another field
     dec = len(fp) if fp is not None else 0
     width = len(fmt)
     comma = ',' in ip
@@ -97,11 +98,20 @@ def spec_field(fmt, v):
         return ('tie',)          # the rounding direction of an exact tie is not judged
     body = ('{:,.%df}' % dec).format(q) if comma else ('{:.%df}' % dec).format(q)
     if fp is not None and dec == 0:
-        body += '.'
+        body += '.'                      # "##.": the point is a position of the field
+    if ip == '' and body.startswith('0.'):
+        body = body[1:]                  # ".##": no digit position in front of the point
     neg = v < 0
+    if tsign:
+        # a trailing sign: the sign position is the last one ('-' shows only a minus, '+' shows both)
+        mark = '-' if neg else ('+' if tsign == '+' else ' ')
+        s = body + mark
+        if len(s) <= width:
+            return ('text', s.rjust(width))
+        if mark == ' ' and len(body) <= width:
+            return ('text', body.rjust(width))      # a non-negative value may use the sign position
+        return ('text', '%' + (body if mark == ' ' else s))
     s = ('-' if neg else ('+' if sign == '+' else '')) + body
-    if sign != '+' and not neg and len(s) < width:
-        pass
     if len(s) <= width:
         return ('text', s.rjust(width))
     return ('text', '%' + s)
@@ -166,7 +176,9 @@ def run(chk):
 
     # ---- C: the property's sentences on plain numeric fields (real code)
     plain = ['#', '##', '###', '####', '###.#', '###.##', '#.###', '##.', '+###', '+##.##', '-##.#', '#,###', '##,###.##',
-             '#####', '########', '#######.###']
+             '#####', '########', '#######.###',
+             # trailing signs and a decimal point at the edge of the field
+             '###-', '##+', '#.##-', '#.#-', '##.##+', '###.-', '.##', '.#', '.###-', '+.##', '#.', '####.', '#,###.##-']
     hits = {}
     njudged = 0
     for f in plain:
@@ -178,10 +190,7 @@ def run(chk):
             njudged += 1
             got = fo.format([v])
             if got != sp[1]:
-                if '.' not in f and isinstance(v, float):
-                    sig = 'C19 field without decimal point formats a float with {} (not rounded, repr form)'
-                else:
-                    sig = 'C19 numeric field deviates from width/rounding/overflow rule'
+                sig = 'C19 numeric field deviates from width/rounding/overflow rule'
                 hits[sig] = hits.get(sig, 0) + 1
                 chk.finding(sig, f'PRINT USING "{f}"; {v!r} -> {got!r}, rule gives {sp[1]!r}', {'kind': 'field', 'fmt': f, 'value': v})
     dist['plain_field_cases_judged'] = njudged
